@@ -15,6 +15,7 @@ import (
 	"net"
 	"strconv"
 	"strings"
+	"sync"
 	"time"
 
 	req "github.com/imroc/req/v3"
@@ -32,6 +33,33 @@ type expectOrigin struct {
 	Addr string
 	C    chan seqObs
 	n    int
+	mu   sync.Mutex
+	hits map[string]int // per target: how many times it was requested
+}
+
+// statusFor scripts the answer by the target: ".../fail-N/..." is answered 503 the first N times;
+// ".../setck/..." sets the cookie jar=<hit number>
+func (o *expectOrigin) statusFor(target string) string {
+	o.mu.Lock()
+	defer o.mu.Unlock()
+	if o.hits == nil {
+		o.hits = map[string]int{}
+	}
+	o.hits[target]++
+	k := o.hits[target]
+	status := "200 OK"
+	for _, seg := range strings.Split(target, "/") {
+		if strings.HasPrefix(seg, "fail-") {
+			if n, err := strconv.Atoi(seg[5:]); err == nil && k <= n {
+				status = "503 Service Unavailable"
+			}
+		}
+	}
+	extra := ""
+	if strings.Contains(target, "/setck/") {
+		extra = fmt.Sprintf("Set-Cookie: jar=%d; Path=/\r\n", k)
+	}
+	return "HTTP/1.1 " + status + "\r\n" + extra + "Content-Length: 0\r\n\r\n"
 }
 
 func startExpectOrigin() (*expectOrigin, error) {
@@ -151,7 +179,7 @@ func (o *expectOrigin) serve(c net.Conn, seq int) {
 			return
 		}
 		if !answered {
-			c.Write([]byte("HTTP/1.1 200 OK\r\nContent-Length: 0\r\n\r\n"))
+			c.Write([]byte(o.statusFor(obs.Target)))
 		}
 	}
 }
